@@ -98,6 +98,11 @@ pub fn check(script: &Script) -> CaseResult {
         let Req::AlbumArt(uri) = req else { continue };
         let got = match state {
             ReqState::Done(o) => o,
+            // a caller that gave up (its future was dropped) is owed nothing
+            ReqState::Cancelled => {
+                r.class("album_art_caller_gave_up");
+                continue;
+            }
             other => {
                 r.fail(format!("album_art request {i} did not complete: {other:?}"));
                 return r;
@@ -253,6 +258,20 @@ fn strategy_plain(_tier: Tier) -> BoxedStrategy<Script> {
             }
             together.extend(gen.drain(i..));
             gen.push(simgen::GenStep::Together(together));
+            // now and then an earlier caller asked for another picture and dropped its future while
+            // the transfer was under way (reply bytes withheld, partly released, then all released)
+            let gave_up = at % 5 == 0;
+            if gave_up {
+                let pre = vec![
+                    simgen::GenStep::Plain(Step::Hold),
+                    simgen::GenStep::Plain(Step::Issue { caller: 9, req: Req::AlbumArt("given up.mp3".into()) }),
+                    simgen::GenStep::Plain(Step::Advance(1)),
+                    simgen::GenStep::Plain(Step::Release(1 + (at as usize / 5) % 40)),
+                    simgen::GenStep::Plain(Step::Cancel(0)),
+                    simgen::GenStep::Plain(Step::ReleaseAll),
+                ];
+                gen.splice(0..0, pre);
+            }
             let mut s = simgen::assemble(seed, seg, None, gen);
             s.picture = Some(ps);
             s
